@@ -5,7 +5,7 @@
 From Coq Require Extraction.
 From Coq Require Import ExtrOcamlBasic ExtrOcamlNatBigInt ExtrOcamlZBigInt.
 From Coq Require Import ZArith.
-From Sfs Require Import Index ArrayM Scalar Spectrum Project Create SampleParse Stat Npy Text Container Stream Ext.
+From Sfs Require Import Index ArrayM Scalar Spectrum Project Create SampleParse Stat Npy Text Container Stream Ext Frames.
 
 Extraction Blacklist List String Int Big_int_Z.
 
@@ -35,7 +35,7 @@ Extraction "model.ml"
   ArrayM.view_items ArrayM.view_to_array ArrayM.axis_next ArrayM.axis_len ArrayM.ind_next ArrayM.ind_len
   z_sum_axis qc_of qc_num qc_den
   Spectrum.marginalize Spectrum.keep_to_remove Spectrum.normalize Spectrum.mask_monomorphic
-  Ext.e_fold Ext.e_marginalize
+  Ext.e_fold Ext.e_marginalize Frames.count_frames
   Spectrum.folded_cells Spectrum.fold0 Spectrum.mirror_arr Spectrum.spectrum_sum Spectrum.marg_spec
   Project.binomN Project.hyp Project.project Project.project_spec
   Create.classify Create.classify_v0 Container.vcf_field_gt Container.vcf_sample_gt Container.bcf_field_gt Container.render_gt Container.hts_encode Container.parse_gt Create.build_map Create.map_shape Create.build_reader Create.read_site
